@@ -81,6 +81,7 @@ pub fn lockstep_check(ctx: &mut Ctx, kind: Kind, what: &str) -> bool {
     ctx.count_n("lockstep.eval_poly_calls", log.calls[3]);
     ctx.count_n("lockstep.differences_only_in_contract_garbage_region", log.garbage_region_differences);
     ctx.count_n("lockstep.perturbed_shadow_calls", log.perturbed_calls);
+    ctx.count_n("lockstep.far_position_shadow_calls", log.far_position_calls);
     ctx.stats.tuples.extend(log.tuples.iter().copied());
     if let Some(v) = log.violations.first() {
         let prim = v.split('(').next().unwrap_or("?").to_string();
@@ -666,7 +667,7 @@ pub fn run_encoder(ch: &mut Chooser, ctx: &mut Ctx) {
         cfg,
         shards: Vec::new(),
         data_seed: ch.seed64("data.seed"),
-        data_mode: ch.weighted("data.mode", &[8, 1, 1, 3]) as u8,
+        data_mode: ch.weighted("data.mode", &[8, 1, 1, 3, 3]) as u8,
         has_history: false,
         failed_round: false,
         failed_ever: false,
@@ -839,7 +840,7 @@ pub fn run_encoder(ch: &mut Chooser, ctx: &mut Ctx) {
                 st.failed_round = false;
                 st.has_history = true;
                 st.data_seed = ch.seed64("data.seed");
-                st.data_mode = ch.weighted("data.mode", &[8, 1, 1, 3]) as u8;
+                st.data_mode = ch.weighted("data.mode", &[8, 1, 1, 3, 3]) as u8;
             }
             // ---------------------------------------------------- reset (invalid) : must fail and change nothing
             4 => {
@@ -922,7 +923,7 @@ pub fn run_encoder(ch: &mut Chooser, ctx: &mut Ctx) {
                     cfg: next,
                     shards: Vec::new(),
                     data_seed: ch.seed64("data.seed"),
-                    data_mode: ch.weighted("data.mode", &[8, 1, 1, 3]) as u8,
+                    data_mode: ch.weighted("data.mode", &[8, 1, 1, 3, 3]) as u8,
                     has_history: recycled,
                     failed_round: false,
                     failed_ever: false,
@@ -1287,7 +1288,7 @@ fn dec_need(kind: Kind, cfg: (usize, usize, usize)) -> Need {
 
 impl DecState {
     fn fresh(ch: &mut Chooser, ctx: &mut Ctx, kind: Kind, cfg: (usize, usize, usize), held: Need, has_history: bool) -> Option<Self> {
-        let stripe = make_stripe(ctx, kind.layer.family(), cfg, ch.seed64("data.seed"), ch.weighted("data.mode", &[8, 1, 1, 3]) as u8)?;
+        let stripe = make_stripe(ctx, kind.layer.family(), cfg, ch.seed64("data.seed"), ch.weighted("data.mode", &[8, 1, 1, 3, 3]) as u8)?;
         Some(Self {
             kind,
             cfg,
@@ -2021,7 +2022,7 @@ fn dec_decode(ch: &mut Chooser, ctx: &mut Ctx, obj: &mut dyn DynDecoder, st: &mu
     // the next round codes new data (a result that is really the previous round's would otherwise look right)
     if ch.chance("dec.newdata", 3, 4) {
         let fam = st.kind.layer.family();
-        match make_stripe(ctx, fam, st.cfg, ch.seed64("data.seed"), ch.weighted("data.mode", &[8, 1, 1, 3]) as u8) {
+        match make_stripe(ctx, fam, st.cfg, ch.seed64("data.seed"), ch.weighted("data.mode", &[8, 1, 1, 3, 3]) as u8) {
             Some(s) => st.stripe = s,
             None => return true,
         }
